@@ -40,7 +40,7 @@ def fix_case(case):
 
 Q_OPTS = {
     'C01': dict(opts={'caching': (False, True), 'evals': 2, 'ordered': True}, judge=dict(ordered=True)),
-    'C17': dict(opts={'caching': (False, True), 'evals': 1, 'ordered': True}, judge=dict(ordered=True)),
+    'C17': dict(opts={'caching': (False, True), 'evals': 2, 'ordered': True}, judge=dict(ordered=True)),
     'C03': dict(opts={'caching': (False, True), 'evals': 2}, judge=dict(check_tree=True)),
     'C15': dict(opts={'caching': (False, True), 'evals': 1}, judge=dict(check_tree=True)),
     'C09': dict(opts={'caching': (False, True), 'evals': 2, 'ambients': (None, 'query', 'rule')}, judge={}),
